@@ -28,7 +28,11 @@ CFG = {
             "cases) = create_slice / create_read_slice + create_write_slice over an RwSignal holding a two-field struct, `slicea` = asymmetric "
             "getter/setter pairs; `dropped` = a memo nobody reads is evaluated first and disposed/dropped later (dead entry ahead of live subscribers). "
             "Instrumentation oracles on every case: each user comparator call gets (previous value | None, freshly computed value), each memo closure "
-            "gets the previous value; a body that re-runs although none of its tracked inputs changed has lost its untracked snapshot",
+            "gets the previous value; a body that re-runs although none of its tracked inputs changed has lost its untracked snapshot. "
+            "Lifetimes (a quarter of the cases each): `scope` = a run of signals / memos is created under a child owner (always reference counted "
+            "there: ArcRwSignal / arc_signal, ArcMemo with every constructor, ArcSignal / ArcMappedSignal wrappers) that is cleaned up early in "
+            "the history - the nodes must keep working; `disposew` = a fresh Signal::from(node) wrapper is created and disposed while other "
+            "readers keep reading the node; `paused` = the root owner is paused / resumed in memo-only programs (memos must not care)",
     "trusted": ["reactive_graph's Rust closures are driven through an interpreter of the same Expr grammar (harness/hx-c01/src/lib.rs)",
                 "lean/LeptosModel/Model/ReactiveDriver.lean maps `acc` to nothing and a leaf `memoc k e` to `memo e` (argument in its header: a comparator is visible to subscribers only)"],
     "modelled": ["MemoInner::{mark_dirty,mark_check,update_if_necessary}", "signal mark_dirty", "Track::track", "SourceSet/SubscriberSet",
@@ -38,6 +42,7 @@ CFG = {
                  "MappedSignal/ArcMappedSignal/MaybeSignal/MaybeProp, computed::{create_slice,create_read_slice,create_write_slice} "
                  "(struct signal = two field signals, slice = memo over both fields; ReactiveDriver.lean header)"],
     "assumptions": ["i64 arithmetic does not overflow on generated programs (small constants, bounded depth)",
+                    "owners are transparent for signals and memos in the model (it has owners for effects only): scope / cleanupscope / disposew / pauseall are steps that change nothing; arena-flavoured nodes are not created inside a scope (they die with it by design); effects, selectors and slices are not defined inside scopes; scopes do not nest",
                     "field nodes of a struct signal are read through slices and `read` ops only (a direct reader would subscribe to one field in the model, to the whole signal in the code)",
                     "memos with a comparator coarser than equality are exercised as leaves only (what their subscribers see is the comparator's business, not part of the property)",
                     "derived signals / MappedSignal / Signal::derive are plain closures without cache: they are from-scratch by construction and are not separately modelled"],
